@@ -1604,12 +1604,17 @@ impl Vm {
     }
 
     fn reset_stack(&mut self) {
-        if let Some(fiber) = self.fiber.as_ref() {
+        // An uncaught error ends the active fiber and every fiber waiting for it.
+        let mut next = self.fiber.as_ref().map(|fiber| fiber.as_gc());
+        while let Some(fiber) = next {
             let mut borrowed_fiber = fiber.borrow_mut();
             // Closures created by the discarded frames may outlive them.
             borrowed_fiber.close_upvalues(0);
             borrowed_fiber.stack.clear();
             borrowed_fiber.frames.clear();
+            borrowed_fiber.exc_handlers.clear();
+            borrowed_fiber.pending_returns.clear();
+            next = borrowed_fiber.caller.take();
         }
     }
 
